@@ -55,6 +55,10 @@ pub trait Family: 'static + Sized + Send + Sync {
     /// the public per-type body decoder (`X::decode_async`) selected by the frame's own header,
     /// run on the bytes after the header; None if the header does not parse or the type has no body decoder
     fn body_level_decode(frame: &[u8]) -> Option<Result<Self::Packet, Self::Error>>;
+    /// the same decoders reading from a stream that is positioned behind the fixed header `h` and goes on behind the
+    /// frame; `variant` 1 decodes a CONNECT the way a version-sniffing server does (`Protocol::decode_async`, then
+    /// `Connect::decode_with_protocol`)
+    fn body_level_decode_stream(h: Self::Header, r: &mut &[u8], variant: u8) -> Option<Result<Self::Packet, Self::Error>>;
     /// sized constructions that only exist in one family (see sized.rs)
     fn build_sized(kind: u64, typ: usize, target: usize) -> Option<Self::Packet>;
     /// every invariant-bearing field of a packet
@@ -312,11 +316,23 @@ impl Family for V3 {
     fn body_level_decode(frame: &[u8]) -> Option<Result<Self::Packet, Self::Error>> {
         use futures_lite::future::block_on;
         use v3::PacketType as T;
+        let _ = block_on(async {});
+        let _ = T::Connect;
         let h = v3::Header::decode(frame).ok()?;
         let (hl, _) = crate::refdec::frame_bounds(frame).ok()?;
         let mut r: &[u8] = frame.get(hl..)?;
+        Self::body_level_decode_stream(h, &mut r, 0)
+    }
+    fn body_level_decode_stream(h: Self::Header, r: &mut &[u8], variant: u8) -> Option<Result<Self::Packet, Self::Error>> {
+        use futures_lite::future::block_on;
+        use v3::PacketType as T;
+        let mut r = r;
         let rl = h.remaining_len as usize;
         Some(match h.typ {
+            T::Connect if variant == 1 => match block_on(mqtt_proto::Protocol::decode_async(&mut r)) {
+                Ok(proto) => block_on(v3::Connect::decode_with_protocol(&mut r, proto)).map(Into::into),
+                Err(e) => Err(e),
+            },
             T::Connect => block_on(v3::Connect::decode_async(&mut r)).map(Into::into),
             T::Connack => block_on(v3::Connack::decode_async(&mut r)).map(Into::into),
             T::Publish => block_on(v3::Publish::decode_async(&mut r, h)).map(Into::into),
@@ -500,10 +516,22 @@ impl Family for V5 {
     fn body_level_decode(frame: &[u8]) -> Option<Result<Self::Packet, Self::Error>> {
         use futures_lite::future::block_on;
         use v5::PacketType as T;
+        let _ = block_on(async {});
+        let _ = T::Connect;
         let h = v5::Header::decode(frame).ok()?;
         let (hl, _) = crate::refdec::frame_bounds(frame).ok()?;
         let mut r: &[u8] = frame.get(hl..)?;
+        Self::body_level_decode_stream(h, &mut r, 0)
+    }
+    fn body_level_decode_stream(h: Self::Header, r: &mut &[u8], variant: u8) -> Option<Result<Self::Packet, Self::Error>> {
+        use futures_lite::future::block_on;
+        use v5::PacketType as T;
+        let mut r = r;
         Some(match h.typ {
+            T::Connect if variant == 1 => match block_on(mqtt_proto::Protocol::decode_async(&mut r)) {
+                Ok(proto) => block_on(v5::Connect::decode_with_protocol(&mut r, h, proto)).map(Into::into),
+                Err(e) => Err(e.into()),
+            },
             T::Connect => block_on(v5::Connect::decode_async(&mut r, h)).map(Into::into),
             T::Connack => block_on(v5::Connack::decode_async(&mut r, h)).map(Into::into),
             T::Publish => block_on(v5::Publish::decode_async(&mut r, h)).map(Into::into),
